@@ -363,13 +363,16 @@ class Builder:
         self.features.add('add')
         return out
 
-    def cat(self, srcs, dim=1):
+    def cat(self, srcs, dim=1, spelled=None):
         shp = list(self.shapes[srcs[0]])
         for s in srcs[1:]:
             shp[dim - 1] += self.shapes[s][dim - 1]
         out = self.fresh()
-        self.emit({'op': 'cat', 'srcs': list(srcs), 'dim': dim, 'out': out}, shp,
-                  'cat' if dim == 1 else 'mixed')
+        # `spelled`: the same axis written as a negative index (torch.cat(..., dim=-1))
+        self.emit({'op': 'cat', 'srcs': list(srcs), 'dim': dim if spelled is None else spelled,
+                   'axis': dim, 'out': out}, shp, 'cat' if dim == 1 else 'mixed')
+        if spelled is not None:
+            self.features.add('cat-negative-dim')
         self.features.add('cat' if dim == 1 else 'tcat')
         org = '-'.join(sorted(self.origin[s] for s in srcs))
         if dim == 1:
@@ -490,6 +493,10 @@ class Builder:
         a = self.same_shape_conv(t)
         c = self.shapes[a][0]
         b = self.same_shape_conv(t, cout=c)
+        rank = len(self.shapes[a]) + 1
+        if self.rng.random() < 0.4:
+            # last axis, spelled with a negative index
+            return self.cat([a, b], dim=rank - 1, spelled=-1)
         return self.cat([a, b], dim=2)
 
     def dw_block(self, t):
@@ -503,9 +510,52 @@ class Builder:
             o = self.maybe_bn_act(o2)
         return o
 
+    def trailing(self, o):
+        """an op between the last layer and the network output (the layer stays output-connected)"""
+        r = self.rng.random()
+        if r < 0.7:
+            return o
+        if len(self.shapes[o]) > 1 and r < 0.8:
+            self.features.add('trailing-flatten')
+            return self.flat(o)
+        self.features.add('trailing-act')
+        return self.act(o, self.rng.choice(['sigmoid', 'tanh', 'relu_f', 'relu_mod']))
+
+    def multiscale_head(self, t):
+        """two branches at different spatial sizes, each flattened, concatenated, classifier"""
+        # (roll the builder back when the head does not fit: no dead layers in a program)
+        saved = (len(self.ops), self.n, set(self.features), list(self.excluded))
+
+        def rollback():
+            for op in self.ops[saved[0]:]:
+                self.shapes.pop(op['out'], None)
+                self.origin.pop(op['out'], None)
+            del self.ops[saved[0]:]
+            self.n, self.features, self.excluded = saved[1], saved[2], saved[3]
+            return None
+        a = self.same_shape_conv(t)
+        a = self.act(a, 'relu_f')
+        b = self.pool(a, self.rng.choice(['max', 'avg']))
+        if b == a:
+            return rollback()
+        b = self.same_shape_conv(b)
+        fa, fb = self.flat(a), self.flat(b)
+        if self.shapes[fa][0] + self.shapes[fb][0] > 600:
+            return rollback()
+        o = self.cat([fa, fb], 1)
+        self.features.add('multiscale-flatten-cat')
+        return self.lin(o, fout=self.rng.randint(1, 6))
+
     def head(self, t):
+        return self.trailing(self._head(t))
+
+    def _head(self, t):
         rng = self.rng
         shp = self.shapes[t]
+        if rng.random() < 0.12 and min(shp[1:]) >= 2:
+            o = self.multiscale_head(t)
+            if o is not None:
+                return o
         style = rng.choice(['flat', 'flat', 'gap', 'conv', 'gap-squeeze'])
         n = 1
         for x in shp:
@@ -629,6 +679,13 @@ def gen_valid_program(rng, **kw):
             with torch.no_grad():
                 y = m(*xs)
             if y.dim() < 2 or y.numel() == 0:
+                continue
+            # every tensor must reach the output (dead layers are never converted by PLiNIO)
+            used = {prog['out']}
+            for op in reversed(prog['ops']):
+                if op['out'] in used:
+                    used.update(op.get('srcs') or [op.get('src')])
+            if any(op['out'] not in used for op in prog['ops']):
                 continue
             return prog
         except (AssertionError, RuntimeError, ValueError, TypeError, StopIteration):
